@@ -1281,7 +1281,7 @@ func StdDev(x, weights []float64) float64 {
 // When weights sum to 1 or less, a biased variance estimator should be used.
 func MeanStdDev(x, weights []float64) (mean, std float64) {
 	mean, variance := MeanVariance(x, weights)
-	return mean, math.Sqrt(variance)
+	return mean, math.Sqrt(math.Max(variance, 0))
 }
 
 // StdErr returns the standard error in the mean with the given values.
@@ -1349,7 +1349,7 @@ func PopMeanVariance(x, weights []float64) (mean, variance float64) {
 // (also known as "population standard deviation").
 func PopMeanStdDev(x, weights []float64) (mean, std float64) {
 	mean, variance := PopMeanVariance(x, weights)
-	return mean, math.Sqrt(variance)
+	return mean, math.Sqrt(math.Max(variance, 0))
 }
 
 // PopStdDev returns the population standard deviation, i.e., a square root
